@@ -119,6 +119,24 @@ def check_timeline(tl, beats, extra_sets=()):
         if back != b:
             fail("beat_at(time_at(b)) is not b for a tick-aligned beat no warp skips", str(b), str(back), beat=str(b))
             break
+    # a'. the same under the WARP tag on both sides, for beats that are alone at their times (no warp starts,
+    #     covers or ends there): the stretch that elapses at time_at(b, WARP) starts at b itself
+    for b in beats:
+        if b.denominator > 48 or 48 % b.denominator:
+            continue
+        if model.stretch_start(model.arrive(b)) != b or model.furthest_beat(model.depart(b)) != b:
+            continue
+        ib = TC.to_beat(b)
+        try:
+            back = engine.beat_at(engine.time_at(ib, TC.EventTag.WARP), TC.EventTag.WARP)
+        except core.WatchdogTimeout:
+            raise
+        except Exception as e:
+            back = f"{type(e).__name__}: {e}"
+        NQ[0] += 1
+        if back != b:
+            fail("beat_at(time_at(b, WARP), WARP) is not b for a tick-aligned beat that is alone at its time", str(b), str(back), beat=str(b))
+            break
     seen = set()
     for t, kind, _org in times:
         ft = Fraction(t)
